@@ -853,6 +853,16 @@ class Exec:
         m = getattr(self, 's_' + type(s).__name__, None)
         if m is None:
             raise NotInSubset(f'statement {type(s).__name__} (line {s.lineno})')
+        if getattr(s, '_optional', False):
+            # alias assignment that precedes the verified part (see verify.generate): skipped when it cannot be evaluated, and never overrides a binding of the contract
+            if isinstance(s, ast.Assign) and isinstance(s.targets[0], ast.Name) and s.targets[0].id in st.env:
+                return [st]
+            nobl_ = len(self.obls)
+            try:
+                return m(st, s)
+            except (NotInSubset, ContractError, KeyError, TypeError, AttributeError):
+                del self.obls[nobl_:]
+                return [st]
         if not self.c.get('expr_fork'):
             return m(st, s)
         snap = st.fork()
